@@ -221,12 +221,58 @@ def cw_torsion(rng):
     return c
 
 
-def random_complex(rng, maxcells=26):
+def from_simplices(rng, simplices, desc):
+    """random faces-first filtration order of a closed set of simplices (tuples of vertices)"""
+    placed, index, remaining = [], {}, set(simplices)
+    while remaining:
+        ready = sorted(s for s in remaining if all((s[:i] + s[i + 1:]) in index for i in range(len(s)) if len(s) > 1))
+        s = rng.choice(ready)
+        index[s] = len(placed)
+        placed.append(s)
+        remaining.discard(s)
+    c = Complex()
+    for s in placed:
+        c.dims.append(len(s) - 1)
+        c.bds.append([] if len(s) == 1 else sorted((index[s[:i] + s[i + 1:]], (1 if i % 2 == 0 else -1)) for i in range(len(s))))
+    c.desc = desc
+    c.names = placed
+    return c
+
+
+def graph_like(rng, maxcells):
+    """a graph with several independent cycles (and sometimes a filled triangle): many positive AND negative edges, so that
+    walks of vine swaps meet every combination of signs with non-trivial entries of U"""
+    nv = rng.randint(4, 6)
+    cells = set((v,) for v in range(nv))
+    edges = [(a, b) for a in range(nv) for b in range(a + 1, nv)]
+    rng.shuffle(edges)
+    ne = rng.randint(nv, min(len(edges), max(nv, maxcells - nv - 1)))
+    es = set(edges[:ne])
+    cells |= es
+    tris = [(a, b, c) for a in range(nv) for b in range(a + 1, nv) for c in range(b + 1, nv) if (a, b) in es and (a, c) in es and (b, c) in es]
+    if tris and rng.random() < 0.5 and len(cells) < maxcells:
+        cells.add(rng.choice(tris))
+    return from_simplices(rng, cells, "graph nv=%d ne=%d" % (nv, ne))
+
+
+def dense_skeleton(rng):
+    """the k-skeleton of a simplex in a random faces-first order: columns are reduced many times by columns sharing
+    rows with them (this is what lazily pruned column types - heap - must survive)"""
+    nv, k = rng.choice([(5, 2), (5, 3), (6, 2), (6, 3), (7, 2)])
+    cells = [s for r in range(1, k + 2) for s in itertools.combinations(range(nv), r)]
+    return from_simplices(rng, cells, "skeleton nv=%d k=%d" % (nv, k))
+
+
+def random_complex(rng, maxcells=26, dense=0.0):
     while True:
         r = rng.random()
-        if r < 0.6:
+        if r < dense:
+            return dense_skeleton(rng)
+        if r < 0.45:
             c = simplicial(rng)
-        elif r < 0.85:
+        elif r < 0.65:
+            c = graph_like(rng, maxcells)
+        elif r < 0.87:
             c = cubical(rng)
         else:
             c = cw_torsion(rng)
